@@ -4,6 +4,7 @@ import QR.Proofs.Except
 import QR.Proofs.History
 import QR.Proofs.SourceTieC18
 import QR.Proofs.Pinned
+import QR.Proofs.CapstoneE3
 /-
 C18 - out-of-range settings are rejected, in-range settings accepted (all integers), and nothing is produced under an
 out-of-range setting (invariant over operation sequences of any length).
@@ -321,6 +322,165 @@ theorem C18_source_awn_src {D C F : Type} (o : ob_QR D C F) (row col : Int) :
   first | exact QR.SourceTieD2.awn_src | (apply QR.SourceTieD2.awn_src <;> assumption)
 
 end SourceTieD2
+
+/-! ### Capstones: (bridge) + (property) composed - the TRANSLATED validators, constructor, setters and `make_image` themselves
+reject exactly the out-of-range settings. -/
+section Capstone
+open QR.Gen.Code QR.SourceTieD2
+
+/-- **capstone, `util.py:check_version`, `main.py:_check_box_size` / `_check_border` / `_check_mask_pattern`** (the raise
+    conditions as translated from the AST, `Gen.Code.check_*_bad`): each validator raises exactly outside the documented range
+    (version 1..40, box size > 0, border ≥ 0, mask 0..7), for all integers.
+    From `C18_source_validators` and `C18_version`, `C18_box`, `C18_border`, `C18_mask`. -/
+theorem C18_source_capstone_validators (x : Int) :
+    (check_version_bad x = true ↔ x < 1 ∨ 40 < x) ∧ (check_box_size_bad x = true ↔ x ≤ 0) ∧
+    (check_border_bad x = true ↔ x < 0) ∧ (check_mask_pattern_bad x = true ↔ x < 0 ∨ 7 < x) := by
+  obtain ⟨h1, h2, h3, h4⟩ := C18_source_validators x
+  refine ⟨?_, ?_, ?_, ?_⟩
+  · rw [← C18_version, h1]; cases check_version_bad x <;> simp
+  · rw [← C18_box, h2]; cases check_box_size_bad x <;> simp
+  · rw [← C18_border, h3]; cases check_border_bad x <;> simp
+  · rw [← C18_mask, h4]; cases check_mask_pattern_bad x <;> simp
+
+/-- **capstone, `main.py:_check_box_size`, `_check_border`, `_check_mask_pattern`** (complete translated bodies `ob_check_*`, on an
+    integer argument): ValueError iff out of range; `None` is an accepted mask pattern.
+    From `C18_source_checkBoxSize_src`, `C18_source_checkBorder_src`, `C18_source_checkMaskPattern_src` and `C18_box`,
+    `C18_border`, `C18_mask`, `C18_mask_none`. -/
+theorem C18_source_capstone_check_methods (x : Int) :
+    (ob_check_box_size (.int x) = .error "ValueError" ↔ x ≤ 0) ∧
+    (ob_check_border (.int x) = .error "ValueError" ↔ x < 0) ∧
+    (ob_check_mask_pattern (.int x) = .error "ValueError" ↔ x < 0 ∨ 7 < x) ∧
+    ob_check_mask_pattern .none = .ok () := by
+  refine ⟨?_, ?_, ?_, ?_⟩
+  · rw [C18_source_checkBoxSize_src, QR.CapstoneE3.liftR_error_iff, C18_box]
+  · rw [C18_source_checkBorder_src, QR.CapstoneE3.liftR_error_iff, C18_border]
+  · rw [show ob_Val.int x = optVal (some x) from rfl, C18_source_checkMaskPattern_src, QR.CapstoneE3.liftR_error_iff, C18_mask]
+  · rw [show ob_Val.none = optVal none from rfl, C18_source_checkMaskPattern_src, C18_mask_none]; rfl
+
+/-- **capstone, `main.py:QRCode.__init__`** (translated `ob_init`, with the translated `_check_*`, setters and `clear`; the callee
+    `util.check_version` is the parameter `checkVersionOb` = the Model's `checkVersion` on integers, tied to the source by
+    `C18_source_validators`): on integer / `None` arguments the constructor returns an object iff every argument is in range.
+    From `C18_source_construct_src`, `C18_construct`.  `fac` must be `None` or a subclass of `BaseImage` (`hf`). -/
+theorem C18_source_capstone_construct {F : Type} (issub : F → Bool) (fac : Option F) (hf : ∀ f, fac = some f → issub f = true)
+    (self0 : ob_QR Seg (List Nat) F) (version : Option Int) (level : Nat) (box border : Int) (mask : Option Int) :
+    (∃ o, ob_init checkVersionOb issub self0 (optVal version) (.int level) (.int box) (.int border) fac (optVal mask) = .ok o) ↔
+      (0 < box ∧ 0 ≤ border ∧ (∀ v, version = some v → 1 ≤ v ∧ v ≤ 40) ∧ (∀ m, mask = some m → 0 ≤ m ∧ m ≤ 7)) := by
+  rw [C18_source_construct_src issub fac hf, ← C18_construct version level box border mask]
+  cases construct version level box border mask with
+  | ok s => simp [liftR, Except.map]
+  | error e => simp [liftR, Except.map]
+/-- **capstone, the property setters `main.py:QRCode.version` / `border` / `mask_pattern` (`@x.setter`)** (translated
+    `ob_set_*`; `util.check_version` = `checkVersionOb` as above) on the object of any state: ValueError iff out of range,
+    and an in-range value is stored (object of the state with that one field replaced).
+    From `C18_source_setVersion_src`, `C18_source_setBorder_src`, `C18_source_setMask_src` and `C18_version`, `C18_border`,
+    `C18_mask`. -/
+theorem C18_source_capstone_setters {F : Type} (fac : Option F) (s : QRState) (x : Int) :
+    (ob_set_version checkVersionOb (toOb fac s) (.int x) = .error "ValueError" ↔ x < 1 ∨ 40 < x) ∧
+    (ob_set_border (toOb fac s) (.int x) = .error "ValueError" ↔ x < 0) ∧
+    (ob_set_mask_pattern (toOb fac s) (.int x) = .error "ValueError" ↔ x < 0 ∨ 7 < x) ∧
+    (1 ≤ x ∧ x ≤ 40 → ob_set_version checkVersionOb (toOb fac s) (.int x) = .ok (toOb fac { s with version := x.toNat })) ∧
+    (0 ≤ x → ob_set_border (toOb fac s) (.int x) = .ok (toOb fac { s with border := x.toNat })) ∧
+    (0 ≤ x ∧ x ≤ 7 → ob_set_mask_pattern (toOb fac s) (.int x) = .ok (toOb fac { s with mask := some x.toNat })) := by
+  have hv := C18_source_setVersion_src fac ({ blanks := [] } : Global) s (some x)
+  have hb := C18_source_setBorder_src fac ({ blanks := [] } : Global) s x
+  have hm := C18_source_setMask_src fac ({ blanks := [] } : Global) s (some x)
+  have kv := C18_version x
+  have kv' := C18_version_ok x
+  have kb := C18_border x
+  have km := C18_mask x
+  have kb' : checkBorder x = .ok () ↔ 0 ≤ x := by unfold checkBorder; split <;> simp_all
+  have km' : checkMaskPattern (some x) = .ok () ↔ 0 ≤ x ∧ x ≤ 7 := by
+    simp only [checkMaskPattern]; split <;> simp_all <;> omega
+  simp only [Agrees, step, optVal] at hv hb hm
+  refine ⟨?_, ?_, ?_, ?_, ?_, ?_⟩
+  · cases hc : checkVersion x with
+    | ok u => rw [hc] at hv kv; simp only at hv; rw [hv.1]; simp at kv ⊢; omega
+    | error e => rw [hc] at hv; simp only at hv; rw [hv.1, ← kv, hc]; cases e <;> simp [Err.name]
+  · cases hc : checkBorder x with
+    | ok u => rw [hc] at hb kb; simp only at hb; rw [hb.1]; simp at kb ⊢; omega
+    | error e => rw [hc] at hb; simp only at hb; rw [hb.1, ← kb, hc]; cases e <;> simp [Err.name]
+  · cases hc : checkMaskPattern (some x) with
+    | ok u => rw [hc] at hm km; simp only at hm; rw [hm.1]; simp at km ⊢; omega
+    | error e => rw [hc] at hm; simp only at hm; rw [hm.1, ← km, hc]; cases e <;> simp [Err.name]
+  · intro hx
+    cases hc : checkVersion x with
+    | ok u => rw [hc] at hv; exact hv.1
+    | error e => exfalso; rw [kv'.2 hx] at hc; cases hc
+  · intro hx
+    cases hc : checkBorder x with
+    | ok u => rw [hc] at hb; exact hb.1
+    | error e =>
+      exfalso; rw [kb'.2 hx] at hc; cases hc
+  · intro hx
+    cases hc : checkMaskPattern (some x) with
+    | ok u => rw [hc] at hm; exact hm.1
+    | error e =>
+      exfalso; rw [km'.2 hx] at hc; cases hc
+/-- **capstone, `main.py:QRCode.make_image`** (translated `ob_make_image`; the implicit compile `self.make()` is the parameter
+    `makeOb fac` = the Model's `makeS true`): with a `box_size` attribute ≤ 0 nothing is produced - ValueError, state unchanged,
+    before any compile.  From `C18_source_makeImage_src`, `C18_box`.  Hypotheses of the bridge kept: no embedded image unless
+    level H (`hk`), factory argument a subclass of `BaseImage` (`hf`). -/
+theorem C18_source_capstone_make_image_rejected {F K : Type} (issub : F → Bool) (truthy : K → Bool) (Image : Bool)
+    (PilImage PyPNGImage : F) (nd nc np : F → Bool) (fac : Option F) (g : Global) (s : QRState) (arg : Option F)
+    (kwargs : List (String × K))
+    (hk : (ob_py_truthy_opt truthy (ob_py_kwargs_get kwargs "embeded_image_path") ||
+            ob_py_truthy_opt truthy (ob_py_kwargs_get kwargs "embeded_image")) = false ∨ s.level = 2)
+    (hf : ∀ f, arg = some f → issub f = true) (hbox : s.boxSize ≤ 0) :
+    ob_make_image issub truthy Image PilImage PyPNGImage nd nc np (makeOb fac) g (toOb fac s) arg kwargs =
+      ((g, toOb fac s), .error "ValueError") := by
+  rw [C18_source_makeImage_src issub truthy Image PilImage PyPNGImage nd nc np fac g s arg kwargs hk hf]
+  have hb := (C18_box s.boxSize).2 hbox
+  simp only [step, hb]
+  rfl
+
+/-- **capstone, `main.py:QRCode.make_image`** (as above; partly translated chain: `make()` = `makeOb fac`): whenever the
+    translated `make_image` hands an image out, from a state satisfying the invariants every constructed object keeps
+    (`C18_constructed`, `C18_run`), the image class was called with `(border, modules_count, box_size)` where `box_size > 0` and
+    `modules_count = 4 v + 17` for a real version `1 ≤ v ≤ 40`, these are the object's attributes after the call, and
+    `qrcode_modules` is its matrix.  From `C18_source_makeImage_src`, `C18_never`. -/
+theorem C18_source_capstone_make_image {F K : Type} (issub : F → Bool) (truthy : K → Bool) (Image : Bool)
+    (PilImage PyPNGImage : F) (nd nc np : F → Bool) (fac : Option F) (g : Global) (hg : GInv g) (s : QRState)
+    (hs : SettingsOK s) (hc : CacheInv s) (arg : Option F) (kwargs : List (String × K))
+    (hk : (ob_py_truthy_opt truthy (ob_py_kwargs_get kwargs "embeded_image_path") ||
+            ob_py_truthy_opt truthy (ob_py_kwargs_get kwargs "embeded_image")) = false ∨ s.level = 2)
+    (hf : ∀ f, arg = some f → issub f = true)
+    (st' : Global × ob_QR Seg (List Nat) F) (im : ob_Call F K) (evs : List ob_Ev)
+    (h : ob_make_image issub truthy Image PilImage PyPNGImage nd nc np (makeOb fac) g (toOb fac s) arg kwargs =
+      (st', .ok (im, evs))) :
+    ∃ (b n v : Nat) (bs : Int), im.pos = [(b : Int), (n : Int), bs] ∧ 0 < bs ∧ 1 ≤ v ∧ v ≤ 40 ∧ n = v * 4 + 17 ∧
+      st'.2.box_size = bs ∧ st'.2.modules_count = n ∧ st'.2._border = (b : Int) ∧ im.kw = [("qrcode_modules", st'.2.modules)] := by
+  rw [C18_source_makeImage_src issub truthy Image PilImage PyPNGImage nd nc np fac g s arg kwargs hk hf] at h
+  cases hst : step (g, s) .makeImage with
+  | mk st o =>
+    have hrun : run (g, s) [.makeImage] = (st, [o]) := by simp [run, hst]
+    have hn := C18_never [.makeImage] g hg s hs hc 0 o (by rw [hrun]; rfl)
+    simp only [List.take, hrun] at hn
+    rw [hst] at h
+    cases o with
+    | image b n bs m =>
+      simp only [Prod.mk.injEq, Except.ok.injEq] at h
+      obtain ⟨h1, h2, h3⟩ := h
+      obtain ⟨⟨_, _, _, v, hv1, hv2, hv3⟩, _, hpos, hb, hn', hbs, hm⟩ := hn
+      subst h1 h2
+      refine ⟨b, n, v, bs, rfl, ?_, hv1, hv2, ?_, ?_, ?_, ?_, ?_⟩
+      · rw [hbs]; exact hpos
+      · rw [hn']; exact hv3
+      · simp [toOb, hbs]
+      · simp [toOb, hn']
+      · simp [toOb, hb]
+      · simp [toOb, hm]
+    | unit => simp at h
+    | err e => simp at h
+    | matrix m => simp at h
+    | text b m => simp at h
+/-- instances through the translated bodies: `box_size=0`, `border=-1`, `mask_pattern=8` are rejected, `mask_pattern=7` is not -/
+example : ob_check_box_size (.int 0) = .error "ValueError" ∧ ob_check_border (.int (-1)) = .error "ValueError" ∧
+    ob_check_mask_pattern (.int 8) = .error "ValueError" ∧ ob_check_mask_pattern (.int 7) ≠ .error "ValueError" :=
+  ⟨(C18_source_capstone_check_methods 0).1.2 (by decide), (C18_source_capstone_check_methods (-1)).2.1.2 (by decide),
+   (C18_source_capstone_check_methods 8).2.2.1.2 (by decide),
+   fun h => absurd ((C18_source_capstone_check_methods 7).2.2.1.1 h) (by decide)⟩
+
+end Capstone
 
 /-- the Python functions this property's model mirrors have, in /repo's current working tree, exactly the normalised
     ASTs the model was written and validated against (fingerprints regenerated by T1 on every run) -/
